@@ -12,6 +12,7 @@ Line-protocol driver of the C14 model (`Model/ServerAuth`).
   restart                                                  → ok dbs=<sorted open databases>   (clean stop, start)
   crash                                                    → ok dbs=…   (the process dies, the next one loads what is durable)
   fault <k>                                                → ok   (the PUT of the primary's metadata object fails after k more such PUTs)
+  fault2 <k>                                               → ok   (same, but the object IS written before the failure is reported)
   nofault                                                  → ok   (disarm)
   wire401 <cbor|json>                                      → status, header set and body bytes (hex) of the rejection
   route <S>                                                → root | db:<name> | badutf8 | unrouted for a raw target
@@ -182,6 +183,10 @@ def step (d : DrvState) (line : String) : DrvState × String :=
     let s' := crash d.cfg d.s
     ({ d with s := s' }, s!"ok dbs={showNames s'.opened}")
   | ["nofault"] => ({ d with s := { d.s with faultIn := none } }, "ok")
+  | ["fault2", k] =>
+    match k.toNat? with
+    | some k => ({ d with s := stepEvent d.cfg d.s (.faultLanding k) }, "ok")
+    | none => (d, "err:parse")
   | ["fault", k] =>
     match k.toNat? with
     | some k => ({ d with s := stepEvent d.cfg d.s (.fault k) }, "ok")
